@@ -1,6 +1,7 @@
 package main
 
 import (
+	"strconv"
 	"fmt"
 	"go/types"
 	"strings"
@@ -22,8 +23,10 @@ func (x *Exec) doCall(call *ssa.CallCommon, fnv Value, args []Value, st *State, 
 		x.events = append(x.events, callEvent{sf.Name, pc})
 		return nil
 	}
-	if _, ok := fnv.(*OpaqueV); ok && call.StaticCallee() == nil {
-		unsupported("call of a function value that is not a constant (in %s)", caller.Name())
+	if call.StaticCallee() == nil && isFuncKind(fnv) {
+		if _, plain := fnv.(*FuncV); !plain {
+			return x.callFuncSet(call, fnv, args, st, pc)
+		}
 	}
 	var callee *ssa.Function
 	var bind []Value
@@ -38,6 +41,73 @@ func (x *Exec) doCall(call *ssa.CallCommon, fnv Value, args []Value, st *State, 
 		unsupported("dynamic call in %s: %s", caller.Name(), call.String())
 	}
 	return x.callFn(callee, bind, args, st, pc)
+}
+
+// callFuncSet: a call through a function value that depends on the path.  Every
+// possible callee is executed under its guard and the outcomes are merged; a
+// nil or unknown function value under a feasible guard is a failed obligation
+// (the call panics, or runs code the verifier knows nothing about).
+func (x *Exec) callFuncSet(call *ssa.CallCommon, fnv Value, args []Value, st *State, pc *Term) Value {
+	b := x.b
+	var outH Heap
+	var outV Value
+	var zero Value
+	if res := call.Signature().Results(); res.Len() == 1 {
+		zero = x.zeroV(res.At(0).Type())
+	} else if res.Len() > 1 {
+		zero = x.zeroV(res)
+	}
+	first := true
+	for _, lf := range x.funcLeaves(fnv, b.True(), nil) {
+		g := b.And(pc, lf.g)
+		if g.Op == "false" {
+			continue
+		}
+		sub := &State{h: st.h.clone(), defers: st.defers, facts: st.facts}
+		rv := zero
+		switch f := lf.v.(type) {
+		case *FuncV:
+			if f.Fn == nil {
+				x.oblige("nil-func-call", g, b.False())
+			} else {
+				rv = x.callFn(f.Fn, f.Bindings, args, sub, g)
+			}
+		default:
+			x.oblige("call-of-unknown-function-value", g, b.False())
+		}
+		if first {
+			outH, outV, first = sub.h, rv, false
+			continue
+		}
+		x.curHeapForStr = outH
+		x.curHeapA, x.curHeapB = sub.h, outH
+		nh := make(Heap, len(outH))
+		for o, v := range sub.h {
+			if ov, ok := outH[o]; ok {
+				nh[o] = x.iteV(lf.g, v, ov)
+			} else {
+				nh[o] = v
+			}
+		}
+		if rv != nil && outV != nil {
+			outV = x.iteV(lf.g, rv, outV)
+		}
+		for o, v := range x.pendingObjs {
+			nh[o] = v
+			delete(x.pendingObjs, o)
+		}
+		for o, v := range outH {
+			if _, ok := nh[o]; !ok {
+				nh[o] = v
+			}
+		}
+		outH = nh
+	}
+	if first {
+		return zero
+	}
+	st.h = outH
+	return outV
 }
 
 func fullName(fn *ssa.Function) string {
@@ -229,6 +299,53 @@ func (x *Exec) key16(p, v *Term) *Term {
 
 func (x *Exec) invoke(recv *IfaceV, m *types.Func, args []Value, st *State, pc *Term) Value {
 	name := m.Name()
+	if recv.AltC != nil {
+		// every possible dynamic value under its guard; outcomes merged
+		b := x.b
+		var outH Heap
+		var outV Value
+		first := true
+		for _, lf := range x.ifaceLeaves(recv, b.True(), nil) {
+			g := b.And(pc, lf.g)
+			if g.Op == "false" {
+				continue
+			}
+			sub := &State{h: st.h.clone(), defers: st.defers, facts: st.facts}
+			rv := x.invoke(lf.v, m, args, sub, g)
+			if first {
+				outH, outV, first = sub.h, rv, false
+				continue
+			}
+			x.curHeapForStr = outH
+			x.curHeapA, x.curHeapB = sub.h, outH
+			nh := make(Heap, len(outH))
+			for o, v := range sub.h {
+				if ov, ok := outH[o]; ok {
+					nh[o] = x.iteV(lf.g, v, ov)
+				} else {
+					nh[o] = v
+				}
+			}
+			if rv != nil && outV != nil {
+				outV = x.iteV(lf.g, rv, outV)
+			}
+			for o, v := range x.pendingObjs {
+				nh[o] = v
+				delete(x.pendingObjs, o)
+			}
+			for o, v := range outH {
+				if _, ok := nh[o]; !ok {
+					nh[o] = v
+				}
+			}
+			outH = nh
+		}
+		if first {
+			return nil
+		}
+		st.h = outH
+		return outV
+	}
 	if recv.Dyn != nil {
 		fn := x.ld.prog.LookupMethod(recv.DynT, m.Pkg(), name)
 		if fn == nil {
@@ -443,9 +560,87 @@ func (x *Exec) builtin(name string, call *ssa.CallCommon, args []Value, st *Stat
 
 // stub gives the assumed contracts of external functions (all listed in the
 // evidence as assumptions).
+// constString / constInt: the Go value of a fully known argument.
+func constString(v Value) (string, bool) {
+	s, ok := v.(*StrV)
+	if ok && s.Known {
+		return s.S, true
+	}
+	return "", false
+}
+
+func constInt(v Value) (int64, bool) {
+	t, ok := v.(*Term)
+	if ok && isC(t) {
+		return sext64(t.Val, t.S.W), true
+	}
+	return 0, false
+}
+
+// foldPure: pure functions of package strings / strconv applied to constants
+// are evaluated by the very library function (ground obligations such as the
+// exerciser tables of C17 run package initialisers that may use them).
+func (x *Exec) foldPure(fn string, args []Value) (Value, bool) {
+	b := x.b
+	str := func(s string) Value { return &StrV{Known: true, S: s, Len: b.Const(64, uint64(len(s)))} }
+	var ss []string
+	var is []int64
+	for _, a := range args {
+		if s, ok := constString(a); ok {
+			ss = append(ss, s)
+		} else if n, ok := constInt(a); ok {
+			is = append(is, n)
+		} else {
+			return nil, false
+		}
+	}
+	switch {
+	case fn == "strings.ReplaceAll" && len(ss) == 3:
+		return str(strings.ReplaceAll(ss[0], ss[1], ss[2])), true
+	case fn == "strings.Replace" && len(ss) == 3 && len(is) == 1:
+		return str(strings.Replace(ss[0], ss[1], ss[2], int(is[0]))), true
+	case fn == "strings.ToUpper" && len(ss) == 1:
+		return str(strings.ToUpper(ss[0])), true
+	case fn == "strings.ToLower" && len(ss) == 1:
+		return str(strings.ToLower(ss[0])), true
+	case fn == "strings.TrimSpace" && len(ss) == 1:
+		return str(strings.TrimSpace(ss[0])), true
+	case fn == "strings.Trim" && len(ss) == 2:
+		return str(strings.Trim(ss[0], ss[1])), true
+	case fn == "strings.TrimLeft" && len(ss) == 2:
+		return str(strings.TrimLeft(ss[0], ss[1])), true
+	case fn == "strings.TrimRight" && len(ss) == 2:
+		return str(strings.TrimRight(ss[0], ss[1])), true
+	case fn == "strings.TrimPrefix" && len(ss) == 2:
+		return str(strings.TrimPrefix(ss[0], ss[1])), true
+	case fn == "strings.TrimSuffix" && len(ss) == 2:
+		return str(strings.TrimSuffix(ss[0], ss[1])), true
+	case fn == "strings.Repeat" && len(ss) == 1 && len(is) == 1 && is[0] >= 0 && is[0] < 1<<16:
+		return str(strings.Repeat(ss[0], int(is[0]))), true
+	case fn == "strings.Contains" && len(ss) == 2:
+		return b.Bool(strings.Contains(ss[0], ss[1])), true
+	case fn == "strings.HasPrefix" && len(ss) == 2:
+		return b.Bool(strings.HasPrefix(ss[0], ss[1])), true
+	case fn == "strings.HasSuffix" && len(ss) == 2:
+		return b.Bool(strings.HasSuffix(ss[0], ss[1])), true
+	case fn == "strings.Index" && len(ss) == 2:
+		return b.Const(64, uint64(int64(strings.Index(ss[0], ss[1])))), true
+	case fn == "strings.Count" && len(ss) == 2:
+		return b.Const(64, uint64(int64(strings.Count(ss[0], ss[1])))), true
+	case fn == "strconv.Itoa" && len(is) == 1 && len(ss) == 0:
+		return str(strconv.Itoa(int(is[0]))), true
+	}
+	return nil, false
+}
+
 func (x *Exec) stub(callee *ssa.Function, args []Value, st *State, pc *Term) (Value, bool) {
 	b := x.b
 	fn := fullName(callee)
+	if strings.HasPrefix(fn, "strings.") || strings.HasPrefix(fn, "strconv.") {
+		if v, ok := x.foldPure(fn, args); ok {
+			return v, true
+		}
+	}
 	switch fn {
 	case "math/bits.OnesCount8", "math/bits.OnesCount16":
 		if x.realStdlib[fn] {
